@@ -1,46 +1,51 @@
 /-
-  C10 (area search) — search and secret scan return for every input.
-  The models of search.go / secrets.go contain no slice expression, index, division or allocation that could fault
-  (they only walk lists and maps), so they are total functions outright — there is no fault monad to discharge.
-  What remains to state: the only failure is the documented error return, and damage is confined.
+  C10 (area search) — search and secret scan.
+  search.go / secrets.go take decoded values (a dump), a pattern text and detectors.  The models
+  (Model/Search.lean, Model/Secrets.lean) are plain functions, not in the fault monad: the Go code has no index,
+  division, make or type assertion that could fail on them (map lookups, `range` loops, `append`, `fmt`), with ONE
+  exception, the slice expression `s[i:i+len(substr)]` of `bytesContains`, which is re-modelled with the bounds-checked
+  `slice` in Proofs/SearchTotal.lean and proved safe below.  For a plain Lean function "a result exists" is true by
+  construction and is therefore NOT stated as a theorem (the earlier `C10_total_matchValue`, `C10_total_searchInDump`,
+  `C10_isolate_cells` were such statements and have been removed; that SearchInDump's only failure is the error return
+  for a pattern that does not compile is `Props.C15.C15_invalid`).  What is stated here: the slice is safe, damage is
+  confined between databases at the level of the exported function, and short cells are skipped by the secret scan.
 -/
 import PgVerif.Props.C15
+import PgVerif.Proofs.SearchTotal
 namespace PgVerif.Props.C10.Search
 open PgVerif PgVerif.Spec.Search PgVerif.Model.Search PgVerif.Proofs.Search
 
-/-- SearchInDump returns for every dump (any values, any nesting, duplicate or missing columns, empty tables), every
-pattern (any byte string) and every option set: a result list when the effective pattern compiles, the error otherwise. -/
-theorem C10_total_searchInDump (R : Regex) (sh : GoVal → Bytes) (d : Dump) (o : Opts) :
-    (R.compile (effPattern o) = none ∧ searchInDump R sh d o = none) ∨
-    (∃ re hs, R.compile (effPattern o) = some re ∧ searchInDump R sh d o = some hs) := by
-  cases hc : R.compile (effPattern o) with
-  | none => exact Or.inl ⟨rfl, (Props.C15.C15_invalid R sh d o).2 hc⟩
+/-- `bytesContains` (secrets.go; the keyword pre-filter of ScanString): its slice expression `s[i:i+len(substr)]`,
+written with Go's bounds check, never faults — for every text and every keyword, empty ones and keywords longer than
+the text included — and the function returns exactly what the pure model `Model.Secrets.bytesContains` returns (which
+`Props.C15.C15_contains` characterises as "substr occurs in s"). -/
+theorem C10_total_bytesContains (s substr : Bytes) :
+    Proofs.SearchTotal.bytesContainsM s substr = .ok (Model.Secrets.bytesContains s substr) :=
+  Proofs.SearchTotal.bytesContainsM_eq s substr
+
+/-- Isolation between databases, for the exported function: without a result limit (MaxResults ≤ 0), SearchInDump on a
+dump made of the databases `d₁` followed by `d₂` fails iff it fails on either part (i.e. iff the pattern does not
+compile), and otherwise returns the hits of `d₁` followed by the hits of `d₂` — what is reported for the databases of
+`d₁` does not depend on the content of `d₂`, however damaged, and vice versa.  (With a limit the result is the
+corresponding prefix: `Props.C15.C15_prefix`.) -/
+theorem C10_isolate_search (R : Regex) (sh : GoVal → Bytes) (d₁ d₂ : Dump) (o : Opts) (hm : o.maxResults ≤ 0) :
+    hits R sh (d₁ ++ d₂) o = (hits R sh d₁ o).bind fun a => (hits R sh d₂ o).map fun b => a ++ b := by
+  rw [Props.C15.C15_prefix, Props.C15.C15_prefix, Props.C15.C15_prefix]
+  unfold expected
+  cases R.compile (effPattern o) with
+  | none => rfl
   | some re =>
-    cases hs : searchInDump R sh d o with
-    | none => rw [(Props.C15.C15_invalid R sh d o).1 hs] at hc; cases hc
-    | some hs' => exact Or.inr ⟨re, hs', rfl, rfl⟩
+    have h : ¬ o.maxResults > 0 := by omega
+    simp [h, allMatches]
 
-/-- matchValue returns a boolean for every value (by construction); in particular NULL never matches, whatever the matcher. -/
-theorem C10_total_matchValue (re : Bytes → Bool) (sh : GoVal → Bytes) (v : GoVal) :
-    ∃ b, matchValue re sh v = b ∧ matchValue re sh .nil = false := ⟨_, rfl, rfl⟩
-
-/-- Isolation between databases: what is reported for the databases of `d₁` does not depend on `d₂` and vice versa
-(without a limit; with a limit the result is the prefix of this list). -/
-theorem C10_isolate_search (re : Bytes → Bool) (sh : GoVal → Bytes) (incl : Bool) (d₁ d₂ : Dump) :
-    allMatches re sh incl (d₁ ++ d₂) = allMatches re sh incl d₁ ++ allMatches re sh incl d₂ := by
-  simp [allMatches]
-
-/-- Isolation between cells: replacing the value of one column of a row changes nothing about the hits of the other
-columns of that row (the cells of a row are tested one by one). -/
-theorem C10_isolate_cells (re : Bytes → Bool) (sh : GoVal → Bytes) (o : Opts) (db tbl : Bytes) (i : Nat) (row : Row)
-    (l₁ l₂ : List Bytes) :
-    (l₁ ++ l₂).flatMap (colF re sh o db tbl i row) = l₁.flatMap (colF re sh o db tbl i row) ++ l₂.flatMap (colF re sh o db tbl i row) := by
-  simp
-
-/-- The secret scan returns for every dump and every set of detectors, including detectors that fail (`fromData = none`
-is skipped); a cell whose text is shorter than 8 bytes contributes nothing. -/
-theorem C10_total_scan (dets : List Spec.Search.Detector) (sh : GoVal → Bytes) (db tbl : Bytes) (i : Nat) (row : Row) (c : Bytes)
+/-- The secret scan skips short cells: a cell whose `%v` text is shorter than 8 bytes contributes no finding, for every
+set of detectors (not a totality statement: the scan is a plain function). -/
+theorem C10_scan_short_cell (dets : List Spec.Search.Detector) (sh : GoVal → Bytes) (db tbl : Bytes) (i : Nat) (row : Row) (c : Bytes)
     (h : (fmtV sh ((lookup c row).getD .nil)).length < 8) : Model.Secrets.scanCell dets sh db tbl i row c = [] := by
   simp only [Model.Secrets.scanCell]; rw [if_pos h]
+
+/-- the hypothesis of `C10_isolate_search` is satisfiable and the statement is not empty: one database with a matching
+cell on each side -/
+example : (∃ o : Opts, o.maxResults ≤ 0) := ⟨{ pattern := [], caseSensitive := true, includeRow := false, maxResults := 0 }, by decide⟩
 
 end PgVerif.Props.C10.Search
